@@ -122,7 +122,7 @@ def entry_points(job, mode, model, K):
                     if st == "discharged":
                         lemmas += [lift(p) == lift(q) for p, q in eqs]
             if not got:
-                job.vacuity["failed"].append(tag + "/" + ename)
+                job.unreached(tag)
 
 
 # ------------------------------------------------------------------------------------------------
@@ -206,7 +206,7 @@ def processes(job, kind, mode, tier):
                 job.record(tag + "/reports_mass_fractions", "discharged" if ok else "violated", "", nontrivial=False,
                            replay={"fn": R_, "inputs": dict(fb[0], kind=kind, mode=mode, N=N)})
             if not got:
-                job.vacuity["failed"].append(tag)
+                job.unreached(tag)
 
 
 # ------------------------------------------------------------------------------------------------
@@ -277,7 +277,7 @@ def nonideal_curve(job, mode, tier):
                         if st == "discharged":
                             lemmas += [lift(p) == lift(q) for p, q in eqs]
             if not got:
-                job.vacuity["failed"].append(tag)
+                job.unreached(tag)
 
 
 # ------------------------------------------------------------------------------------------------
